@@ -193,6 +193,22 @@ def case_st(draw, variant="lin", cage="no", modes=("xu", "x", "both"), cells=("o
         sig = {k: 1.0 for k in range(1, K + 1)}
     else:
         sig = {k: draw(nice_float(0.5, 2.0)) for k in range(1, K + 1)}
+    # Type labels and the diameters map: Dynamics looks every particle's label up in `diameters` (dynamics.py: Series.map),
+    # so labels need not be 1..K (a dump of species 1 and 3 only) and the map may hold more keys than the trajectory
+    # uses (one dictionary for a whole project), in any insertion order.  Seeded change C06-D indexed a table built from
+    # the sorted keys by the rank among the labels present.
+    labmode = draw(st.sampled_from(["1..K", "1..K", "gapped", "extra-keys", "gapped+extra"]))
+    if "gapped" in labmode:
+        newlab = sorted(draw(st.lists(st.integers(1, 9), min_size=K, max_size=K, unique=True)))
+        types = np.array([newlab[int(t) - 1] for t in types], dtype=int)
+        sig = {newlab[k - 1]: v for k, v in sig.items()}
+    if "extra" in labmode:
+        free = [k for k in range(1, 10) if k not in sig]
+        for k in draw(st.lists(st.sampled_from(free), min_size=1, max_size=2, unique=True)):
+            sig[k] = draw(st.sampled_from([0.37, 2.9, 5.0]))
+    if labmode != "1..K":
+        items = list(sig.items())
+        sig = dict(items[i] for i in draw(st.permutations(range(len(items)))))
     mode = draw(st.sampled_from(list(modes)))
     ppp = draw(ppp_st(d))
     if bounded or (mode == "x" and not ppp.any()):
@@ -243,7 +259,7 @@ def case_st(draw, variant="lin", cage="no", modes=("xu", "x", "both"), cells=("o
         nb = draw(neighbours_st(frames, N))
     cal_type = draw(st.sampled_from(["slow", "fast"]))
     case = {"d": d, "cell": cell, "pos": pos, "posw": posw, "types": types, "timesteps": timesteps, "ppp": ppp, "K": K,
-            "kind": kind, "amp": amp, "mode": mode, "dtmd": dtmd, "sig": sig, "cal_type": cal_type, "cond": cond,
+            "kind": kind, "amp": amp, "mode": mode, "dtmd": dtmd, "sig": sig, "labmode": labmode, "cal_type": cal_type, "cond": cond,
             "selmode": selmode, "nb": nb, "variant": variant, "bounded": bounded,
             "max_neighbors": nb["max_neighbors"] if nb else draw(st.sampled_from([30, 100])),
             "nbarg": draw(st.sampled_from(["", None])),
@@ -415,6 +431,7 @@ def common_tags(case, rows, stats):
             "nb-file" if case["nb"] is not None else "nb-none",
             "ppp-full" if np.all(case["ppp"]) else ("ppp-none" if not np.any(case["ppp"]) else "ppp-partial"),
             "sigma-unit" if all(v == 1.0 for v in case["sig"].values()) else "sigma-map",
+            "labels-" + case.get("labmode", "1..K"),
             "t0-zero" if case["timesteps"][0] == 0 else "t0-nonzero"]
     if case["nb"] is not None:
         tags.append("nb-same-all-frames" if case["nb"]["same"] else "nb-per-frame")
